@@ -209,8 +209,13 @@ def run(ctx):
         bp = ctx.path("c19-burst.ndjson")
         return ctx.harness_json("registry", ["c19free", wfut.result(), bp, "40" if thorough else "10", "24"], timeout=1200)
 
+    def churn_stage():
+        # the pool under churn: look-ups that hit while other endpoints' connections are made and cut
+        return ctx.harness_json("registry", ["c19churn", wfut.result(), "40" if thorough else "8"], timeout=1200, race=True)
+
     ffut = pool.submit(free_stage)
     bfut = pool.submit(burst_stage)
+    cfut = pool.submit(churn_stage)
 
     for d in designs:
         d.result()
@@ -332,6 +337,12 @@ def run(ctx):
     ctx.traces += bres["evaluations"]
     ctx.extra["burst_rounds"] = bres["evaluations"]
     ctx.extra["burst_fail_count"] = bres.get("fail_count")
+    cres = cfut.result()
+    ctx.failures(cres["failures"])
+    ctx.traces += cres["evaluations"]
+    ctx.extra["churn_rounds"] = cres["evaluations"]
+    ctx.extra["churn_requests"] = (cres.get("extra") or {}).get("requests")
+    ctx.extra["churn_connections_cut"] = (cres.get("extra") or {}).get("connections_cut")
     pool.shutdown()
 
     # extension: the session's service list (SessionList.tla), see design-notes/EXT-svclist.md
